@@ -365,6 +365,13 @@ def run_bounds(rep, fns):
                     s = R.strip(sib)
                     if N in _assigned_vars(s) and not (s.get("k") == "If"):
                         found = ("reassigned", R.key(s)[:80]) if s.get("k") in ("Assign",) and found is None and False else found
+                    if s.get("k") == "Assign" and R.key(s["l"]) == N:
+                        mm = re.fullmatch(r"min\((.+),(.+)\)", R.key(s["r"]).replace(" ", ""))
+                        if mm and N in (mm.group(1), mm.group(2)):
+                            other = mm.group(2) if mm.group(1) == N else mm.group(1)
+                            other = re.sub(r"\((\w+)-(\w+)\)", r"(\1 - \2)", other)
+                            found = ("clamp", other, other)
+                            break
                     if s.get("k") == "If" and s.get("else") is None:
                         c = R.strip(s["cond"])
                         if c.get("k") == "Binary" and c.get("op") == ">" and R.key(c["l"]) == N:
